@@ -2,6 +2,7 @@
 import common as C
 from props._runcommon import RUN_TRUSTED, RUN_ASSUMPTIONS, PropRunStream
 from run import selftest as W
+from run import witnesses2 as W2
 
 PROPERTY = "C02"
 LEAN_MODULES = ["LccModel.Props.C02", "LccModel.Props.C02Run"]
@@ -40,7 +41,7 @@ class Run(PropRunStream):
     oracles = ("C02",)
     quick_cases = 300
     quick_seconds = 50
-    corpus = [witness("N1 ")]
+    corpus = [witness("N1 "), witness("D11 ")] + W2.CONTROLS
     p_interrupt = 0.2
 
 
